@@ -86,12 +86,30 @@ def gen_world(rng, nprod=None, spaces=None):
         for v in prods[b]:
             prods[b][v] = [l for l in prods[b][v] if "(%s" % lo not in l and "(%s" % a not in l] + \
                           ["setupRequired(%s)" % a, "setupRequired(%s %s)" % (lo, vs[1])]
+    if n >= 3 and rng.random() < 0.2:
+        # an optional dependency that fails part-way: the top product optionally asks for a version of x whose table
+        # first sets up y and then meets a version of y that is not declared / a variable that is not defined
+        y, x, top = names[0], names[1], names[-1]
+        bad = [v for v in VERSIONS if v not in prods[x]]
+        bad = bad[0] if bad else sorted(prods[x])[-1]
+        tail = rng.choice(["setupRequired(%s 9.9)" % y, "envPrepend(PATH, ${UNDEFINED_VARIABLE}/bin)",
+                           "setupRequired(%s 9.9)" % y])
+        prods[x][bad] = ["envPrepend(PATH, ${PRODUCT_DIR}/bin)", "envSet(%s_HOME, ${PRODUCT_DIR}/home)" % x.upper(),
+                         "addAlias(run_%s, echo %s %s)" % (x, x, bad), "setupRequired(%s)" % y, tail]
+        for v in prods[top]:
+            prods[top][v] = [l for l in prods[top][v] if "(%s" % x not in l] + ["setupOptional(%s %s)" % (x, bad)]
     current = {}
     for name in names:
         if rng.random() < 0.9:
             current[name] = rng.choice(sorted(prods[name]))
     root = "stack dir" if (spaces if spaces is not None else rng.random() < 0.25) else "stack"
-    return {"root": root, "products": prods, "current": current}
+    # some products are declared under the fall-back flavor (all versions of such a product)
+    generic = sorted(n for n in names if rng.random() < 0.5) if rng.random() < 0.3 else []
+    return {"root": root, "products": prods, "current": current, "generic": generic}
+
+
+def flavor_of(world, name):
+    return "generic" if name in world.get("generic", ()) else FLAVOR
 
 
 def materialise(work, world):
@@ -107,20 +125,20 @@ def materialise(work, world):
     os.environ["EUPS_SHELL"] = "sh"
     for name, vs in world["products"].items():
         for v, lines in vs.items():
-            d = os.path.join(stack, FLAVOR, name, v)
+            d = os.path.join(stack, flavor_of(world, name), name, v)
             os.makedirs(os.path.join(d, "ups"))
             with open(os.path.join(d, "ups", name + ".table"), "w") as f:
                 f.write("\n".join(lines) + "\n")
     for name, vs in world["products"].items():
         for v in sorted(vs):
             sys.modules["eups.db.Database"]._databases.clear()
-            e = eups.Eups(quiet=1)
-            e.declare(name, v, os.path.join(stack, FLAVOR, name, v),
+            e = eups.Eups(quiet=1, flavor=flavor_of(world, name))
+            e.declare(name, v, os.path.join(stack, flavor_of(world, name), name, v),
                       tag=("current" if world["current"].get(name) == v else None))
             # the first declaration of a product is made current automatically: undo when not wanted
     for name in world["products"]:
         sys.modules["eups.db.Database"]._databases.clear()
-        e = eups.Eups(quiet=1)
+        e = eups.Eups(quiet=1, flavor=flavor_of(world, name))
         cur = e.findTaggedProduct(name, "current") if hasattr(e, "findTaggedProduct") else None
         want = world["current"].get(name)
         if cur is not None and cur.version != want:
@@ -241,10 +259,10 @@ def run_scenario(world, requests, env0):
         parsed = {}
         for name, vs in world["products"].items():
             for v in vs:
-                p = e.findProduct(name, v)
+                p = e.findProduct(name, v, flavor=flavor_of(world, name))
                 tbl = p.getTable()
                 acts = tbl.actions(FLAVOR, setupType=e.setupType) if tbl else []
-                parsed["%s %s" % (name, v)] = {"dir": p.dir, "actions": model_actions(acts),
+                parsed["%s %s" % (name, v)] = {"dir": p.dir, "flavor": p.flavor, "actions": model_actions(acts),
                                                "lines": line_infos(acts, e), "tags": [str(t) for t in p.tags]}
         log, names = [], []
         install_decision_spy(log, names)
@@ -293,11 +311,21 @@ def world_field(res):
     return "|".join(prods)
 
 
+def flavors_field(res):
+    """name~version~flavor of every product declared under another flavor than the running one"""
+    out = []
+    for key, info in sorted(res["parsed"].items()):
+        name, v = key.split(" ")
+        if info.get("flavor", FLAVOR) != FLAVOR:
+            out.append("%s~%s~%s" % (enc(name), enc(v), enc(info["flavor"])))
+    return "+".join(out)
+
+
 def model_line(world, res, rec, fuel=60):
     rq = rec["request"]
     md = rq.get("max_depth")
-    cfg = "%s,%s,%s,%s" % (enc(FLAVOR), enc(res["stack"]), "-" if md is None or md < 0 else str(md),
-                           "1" if rq.get("keep") else "0")
+    cfg = "%s,%s,%s,%s,%s" % (enc(FLAVOR), enc(res["stack"]), "-" if md is None or md < 0 else str(md),
+                              "1" if rq.get("keep") else "0", flavors_field(res))
     ds = ",".join("!" if d is None else enc(d) for d in rec["decisions"])
     return "\t".join(["req", world_field(res), cfg, common.enc_env(rec["before"]), "", ds, enc(rq["name"]),
                       "1" if rq.get("fwd", True) else "0", "1" if rq.get("just") else "0", str(fuel)])
@@ -316,8 +344,8 @@ def model_line_full(world, res, rec, fuel=60):
     information, chain files, environment before - and NO decisions: the model resolves every version itself"""
     rq = rec["request"]
     md = rq.get("max_depth")
-    cfg = "%s,%s,%s,%s" % (enc(FLAVOR), enc(res["stack"]), "-" if md is None or md < 0 else str(md),
-                           "1" if rq.get("keep") else "0")
+    cfg = "%s,%s,%s,%s,%s" % (enc(FLAVOR), enc(res["stack"]), "-" if md is None or md < 0 else str(md),
+                              "1" if rq.get("keep") else "0", flavors_field(res))
     lines, tags = [], []
     for key, info in sorted(res["parsed"].items()):
         name, v = key.split(" ")
@@ -552,6 +580,9 @@ def run_scenarios(ctx, scenarios, oracle, nproc=14):
         ctx.bump("composed-model-comparisons")
         if len(rec["decisions"]) > 1:
             ctx.bump("composed-model-comparisons-with-dependencies")
+    for s, r in zip(scenarios, results):
+        if any(" -f generic " in v for rec in r[1]["records"] for k, v in rec["after"].items() if k.startswith("SETUP_")):
+            ctx.bump("scenario-sets-up-a-fallback-flavor-product")
     wf_fraction(ctx, [r[1] for r in results])
     for s, r in zip(scenarios, results):
         oracle(ctx, s, r[1])
